@@ -207,8 +207,9 @@ def build_data(case) -> dict:
             D["ma"] = [D["ma"][0]] * 3
         elif cm == "gonly":          # only gyro_cov given, acc_cov left at its default
             D["ma"] = [f32((8e-2) ** 2)] * 3
-        elif cm == "aonly":
+        elif cm == "aonly":          # only acc_cov given (as a float), gyro_cov left at its default
             D["mg"] = [f32((3.2e-3) ** 2)] * 3
+            D["ma"] = [D["ma"][0]] * 3
     # explicit init_state material, one per call
     D["xi"] = []
     for ci, kind in enumerate(case["explicit_init"]):
@@ -250,7 +251,7 @@ def make_module(case, D, keep=None):
     P = pp()
     dtype = tdt(case["dtype"])
     g = case["gravity"]
-    if case.get("gravity_int"):
+    if case.get("gravity_int") and float(g).is_integer():
         g = int(g)
     kw = dict(gravity=g, reset=case["reset"], prop_cov=case["prop_cov"])
     cm = case["cov_mode"]
@@ -271,8 +272,8 @@ def make_module(case, D, keep=None):
         kw.update(pos=D["p0"][0].clone(), rot=P.SO3(D["R0"][0].clone()), vel=D["v0"][0].clone())
     elif im == "per_item":
         kw.update(pos=D["p0"][:, None].clone(), rot=P.SO3(D["R0"][:, None].clone()), vel=D["v0"][:, None].clone())
-    if keep is not None:
-        keep += [v for v in kw.values() if isinstance(v, torch.Tensor)]
+    if keep is not None:     # pos / rot / vel are documented as values (the constructor clones them); the covariance tensors
+        keep += [kw[k] for k in ("pos", "rot", "vel") if k in kw]      # are registered as given (observation, see notes)
     if case.get("ctor_positional") and im != "default":
         m = P.module.IMUPreintegrator(kw.pop("pos"), kw.pop("rot"), kw.pop("vel"), kw.pop("gravity"), **kw)
     else:
@@ -940,7 +941,7 @@ def same_calls(a_calls, b_calls, keys=("rot", "vel", "pos", "cov")):
 def oracle_alias(ctx, case, D, impl_calls):
     """a caller who overwrites, in place, the tensors it passed in and the tensors it got back (re-used buffers,
     post-processed results) must not change what later calls return: the object owns its state"""
-    if len(case["chunks"]) < 2 or not case.get("alias_probe", case["stream"] in ("corpus", "search")):
+    if len(case["chunks"]) < 2 or not case.get("alias_probe", case["stream"] in ("corpus", "search") and not case.get("fail_at")):
         return True
     dist = run_impl(case, D, disturb=True)
     diff = same_calls(impl_calls, dist)
@@ -985,6 +986,96 @@ def oracle_items(ctx, case, D, impl_calls):
     return ok
 
 
+def oracle_grad(ctx, case, D, impl_calls):
+    """(12) the VALUES do not depend on the autograd mode: requires_grad operands, no_grad, inference_mode"""
+    if not case.get("grad_probe"):
+        return True
+    ok = True
+    for mode in ("requires_grad", "no_grad", "inference"):
+        try:
+            other = run_impl(dict(case, layout="contig" if case.get("layout") != "alias" else "alias"), D, grad_mode=mode)
+        except Inconclusive:
+            continue
+        diff = same_calls(impl_calls, other)
+        if diff is not None:
+            ctx.fail({**strip(case), "oracle": "grad", "grad_mode": mode},
+                     f"grad: the same history under '{mode}' returns different values in {diff}")
+            ok = False
+    return ok
+
+
+def oracle_copies(ctx, case, D, impl_calls):
+    """(14) deepcopy / pickle round trip of the object in the middle of a history; original and copies are then fed
+    the remaining chunks interleaved — each must continue exactly like the undisturbed object"""
+    import copy
+    import pickle
+    nc = len(case["chunks"])
+    if nc < 2 or not case.get("copy_probe") or case.get("fail_at"):
+        return True
+    k = case.get("copy_at", nc // 2)
+    ctor = []
+    m = make_module(case, D, keep=ctor)
+    objs = {"original": m}
+    s = 0
+    for ci, n in enumerate(case["chunks"]):
+        if ci == k:
+            objs["deepcopy"] = copy.deepcopy(m)
+            objs["pickle"] = pickle.loads(pickle.dumps(m))
+            objs["deepcopy-of-copy"] = copy.deepcopy(objs["deepcopy"])
+        order = list(objs.items())
+        if ci % 2:
+            order.reverse()
+        for name, obj in order:
+            args, kw, _ = call_args(case, D, ci, s, s + n)
+            o = do_call(obj, case, args, kw)
+            diff = same_calls([impl_calls[ci]], [record(o)])
+            if diff is not None:
+                ctx.fail({**strip(case), "oracle": "copies"},
+                         f"copies: after copying the object before call {k} and using original and copies interleaved, the "
+                         f"{name} differs from the undisturbed history in {diff.replace('call 0', 'call ' + str(ci))}")
+                return False
+        s += n
+    return True
+
+
+def run_interleave(ctx: Ctx, group):
+    """(17) several objects (different dtypes / configurations) served alternately in one process: each must follow its
+    own solo history bit for bit (module-level / class-level state shared between objects shows only here)"""
+    case = {"kind": "interleave", "subs": [strip(c) for c in group]}
+    ctx.note_case(("interleave", tuple((c["dtype"], c["B"], tuple(c["chunks"]), c["reset"]) for c in group)), True)
+    ctx.count("interleave.group")
+    try:
+        datas = [build_data(c) for c in group]
+        solos = [run_impl(c, D) for c, D in zip(group, datas)]
+        mods = [make_module(c, D) for c, D in zip(group, datas)]
+        pos = [0] * len(group)
+        offs = [0] * len(group)
+        turn = 0
+        while any(pos[i] < len(group[i]["chunks"]) for i in range(len(group))):
+            i = turn % len(group)
+            turn += 1
+            if pos[i] >= len(group[i]["chunks"]):
+                continue
+            c, D, ci = group[i], datas[i], pos[i]
+            n = c["chunks"][ci]
+            args, kw, _ = call_args(c, D, ci, offs[i], offs[i] + n)
+            o = do_call(mods[i], c, args, kw)
+            diff = same_calls([solos[i][ci]], [record(o)])
+            if diff is not None:
+                raise Misbehaviour(f"interleave: object {i} ({c['dtype']}, B={c['B']}, chunks {c['chunks']}) served alternately with "
+                                   f"{len(group) - 1} other object(s) differs from its solo history at its call {ci}: {diff}")
+            pos[i] += 1
+            offs[i] += n
+    except Misbehaviour as e:
+        ctx.fail({**case, "oracle": str(e).split(":")[0]}, str(e))
+    except common.InfraError:
+        raise
+    except Inconclusive:
+        ctx.count("errpath.noraise")
+    except Exception as e:
+        ctx.fail({**case, "oracle": "raises"}, f"raises: interleaved objects raised {type(e).__name__}: {str(e)[:160]}")
+
+
 def guarded(ctx, case, name, fn, *args):
     """an oracle must never crash the harness: whatever the implementation returned becomes a failure with the case"""
     try:
@@ -993,6 +1084,8 @@ def guarded(ctx, case, name, fn, *args):
         ctx.fail({**strip(case), "oracle": name}, str(e))
     except common.InfraError:
         raise
+    except Inconclusive:
+        ctx.count("errpath.noraise")
     except Exception as e:
         ctx.fail({**strip(case), "oracle": name},
                  f"misbehaviour: oracle '{name}' could not process what the implementation returned: {type(e).__name__}: {str(e)[:160]}")
@@ -1025,6 +1118,10 @@ def run_case_impl(ctx, case, D):
     except Misbehaviour as e:
         ctx.fail({**strip(case), "oracle": str(e).split(":")[0]}, str(e))
         return None
+    except Inconclusive as e:
+        ctx.count("errpath.noraise")       # the request that must raise was accepted: nothing to conclude
+        ctx.notes.append(f"error-path request '{e}' did not raise")
+        return None
     except Exception as e:
         ctx.fail({**strip(case), "oracle": "raises"},
                  f"raises: forward raised {type(e).__name__} for B={case['B']} chunks={case['chunks'][:12]} rank={case['rank']} "
@@ -1056,6 +1153,11 @@ def evaluate(ctx: Ctx, cases, left=None) -> None:
         ctx.count(f"layout.{case.get('layout', 'contig')}")
         if case.get("item_modes"):
             ctx.count("mixed_regime_batch")
+        for kind in (case.get("fail_at") or {}).values():
+            ctx.count(f"errpath.{kind}")
+        for cc in case["call_cov"]:
+            if cc:
+                ctx.count(f"call_cov.{cc}")
         ctx.sample({k: v for k, v in case.items() if k not in ("known_rot", "call_cov", "explicit_init") or len(case["chunks"]) <= 4}, cap=8)
         impl = run_case_impl(ctx, case, D)
         if impl is not None:
@@ -1064,6 +1166,8 @@ def evaluate(ctx: Ctx, cases, left=None) -> None:
             guarded(ctx, case, "rank", oracle_rank, D, impl)
             guarded(ctx, case, "alias", oracle_alias, D, impl)
             guarded(ctx, case, "items", oracle_items, D, impl)
+            guarded(ctx, case, "grad", oracle_grad, D, impl)
+            guarded(ctx, case, "copies", oracle_copies, D, impl)
             for b in range(case["B"]):
                 pending.append(model_line(case, D, b, 0, left))
                 metas.append((case, D, b, impl))
@@ -1174,7 +1278,8 @@ def run_integrate(ctx: Ctx, cases):
 
 # ----------------------------------------------------------------------------- object reuse
 
-REUSE_KEYS = ("dtype", "gravity", "reset", "prop_cov", "cov_mode", "init_mode", "ctor_seed", "pos_mag", "vel_mag")
+REUSE_KEYS = ("dtype", "gravity", "gravity_int", "ctor_positional", "reset", "prop_cov", "cov_mode", "init_mode", "ctor_seed",
+              "pos_mag", "vel_mag")
 
 
 def reuse_history(rng: random.Random, n_calls: int, variant: str):
@@ -1245,7 +1350,7 @@ def run_reuse_history(ctx: Ctx, subs, record_case=True):
 
 # ----------------------------------------------------------------------------- case generation
 
-GYRO_MODES = ["mix", "mix", "mix", "moderate", "moderate", "moderate", "small", "small", "taylor", "taylor", "large", "large", "zero", "zero", "huge"]
+GYRO_MODES = ["mix", "mix", "mix", "moderate", "moderate", "moderate", "small", "small", "taylor", "taylor", "large", "large", "zero", "zero", "huge", "pi"]
 ACC_MODES = ["mix", "mix", "mix", "unit", "unit", "grav", "grav", "big", "big", "zero", "zero", "huge", "tiny"]
 
 
@@ -1264,12 +1369,16 @@ def base_case(rng: random.Random, stream: str, chunks, B=None, rank=3, dtype=Non
         "init_mode": rng.choice(["default", "shared", "shared", "per_item"]),
         "gyro_mode": rng.choice(GYRO_MODES), "acc_mode": rng.choice(ACC_MODES),
         "dt_mode": rng.choice(["const", "const", "ladder", "ladder", "vary", "vary", "vary", "extreme"]),
-        "cov_mode": rng.choice(["default", "float", "vec"]),
+        "cov_mode": rng.choice(["default", "default", "float", "float", "vec", "vec", "gfloat_avec", "gvec_afloat", "gonly", "aonly"]),
+        "positional": rng.random() < 0.25, "ctor_positional": rng.random() < 0.25, "gravity_int": False,
+        "init_flat": rng.random() < 0.5,
         "pos_mag": rng.choice([0.0, 1.0, 1e3]), "vel_mag": rng.choice([0.0, 1.0, 30.0]),
         "data_seed": rng.randrange(1 << 30),
         "layout": rng.choice(["contig", "contig", "contig", "strided", "expanded", "alias"]),
     }
     case.update(over)
+    if "gravity_int" not in over and case["gravity"] == 0.0 and rng.random() < 0.5:
+        case["gravity_int"] = True                      # zero gravity written as the python int 0
     if case["layout"] == "alias" and case["acc_mode"] in ("zero", "big", "huge") and "gyro_mode" not in over:
         case["gyro_mode"] = "moderate"       # acc IS gyro in this layout: keep it a sensible signal
     if case["rank"] < 3:
@@ -1373,7 +1482,54 @@ def corner_corpus():
         acc_mode="unit", gravity=STD_G)
     add([2, 1, 2], B=1, reset=False, explicit_init=["cov+rnone", None, None], gyro_mode="moderate", acc_mode="grav", gravity=STD_G)
     add([1, 1, 1], B=1, rank=1, gyro_mode="moderate", acc_mode="unit", gravity=STD_G, known_rot=[True])
+    # ---- hardening pass 2
+    # (11) error paths: every kind of raising request, before the first / between / after the last successful call
+    for k, kind in enumerate(ERR_KINDS_COV + ERR_KINDS_ANY):
+        for at in (0, 1, 2, 3):
+            if (k + at) % 2 == 0 or kind in ("gcov_float", "cov_dtype", "cov_shape"):
+                add([2, 1, 3], B=1 + k % 2, reset=False, prop_cov=True, known_rot=[k % 3 == 0], gravity=STD_G,
+                    gyro_mode="moderate", acc_mode="unit", fail_at={str(at): kind}, init_mode="shared", dtype="float64" if k % 4 else "float32")
+    add([2, 2], B=2, reset=False, fail_at={"0": "gcov_float", "1": "cov_dtype", "2": "cov_shape"}, gyro_mode="moderate",
+        acc_mode="unit", gravity=STD_G)
+    add([3, 2], B=1, reset=True, prop_cov=True, fail_at={"1": "acov_float"}, gyro_mode="moderate", acc_mode="unit", gravity=STD_G)
+    # (10) argument combinations: exactly one per-call covariance, (B,1,3) covariances, positional passing, constructor mixes
+    for cc in ("g", "a", "b1", True):
+        for posi in (False, True):
+            add([2, 3], B=2, call_cov=[cc, False] if posi else [False, cc], positional=posi, ctor_positional=posi,
+                cov_mode=("gfloat_avec", "gvec_afloat", "gonly", "aonly")[(cc != "g") + 2 * posi],
+                known_rot=[posi], gyro_mode="moderate", acc_mode="unit", gravity=STD_G, itemwise=True)
+    add([2, 2], B=1, explicit_init=["rnone", "basic"], init_flat=True, reset=True, gyro_mode="moderate", acc_mode="unit", gravity=STD_G)
+    add([2, 2], B=1, explicit_init=["cov+rij", None], init_flat=True, reset=False, positional=True, gyro_mode="moderate",
+        acc_mode="unit", gravity=STD_G)
+    # (13) zero / integral gravity written as a python int
+    add([3, 2], B=2, gravity=0.0, gravity_int=True, gyro_mode="moderate", acc_mode="unit", known_rot=[False])
+    add([4], B=1, gravity=10.0, gravity_int=True, gyro_mode="moderate", acc_mode="unit", known_rot=[True], dtype="float32")
+    # (16) sizes equal to the feature dimensions 3, 4, 9 (and 1) in the batch and the frame position
+    for Bs, parts in ((3, [3]), (3, [1]), (1, [3]), (4, [4]), (3, [4]), (4, [3]), (9, [9]), (3, [9]), (3, [3, 3]), (4, [4, 3, 9])):
+        add(parts, B=Bs, gyro_mode="moderate", acc_mode="unit", gravity=STD_G, known_rot=[Bs % 2 == 0], init_mode="per_item",
+            call_cov=[True] + [False] * (len(parts) - 1), itemwise=Bs <= 4)
+    # (18) spacing around the thresholds of SO3 Log (theta = pi, 2 pi, 3 pi; both sides; exactly, with isotropic covariance)
+    for dtp in ("float64", "float32"):
+        add([6], B=2, gyro_mode="pi", acc_mode="unit", gravity=STD_G, cov_mode="default", dtype=dtp, known_rot=[False])
+        add([3, 3], B=1, gyro_mode="pi", acc_mode="grav", gravity=STD_G, cov_mode="vec", dtype=dtp, known_rot=[True])
+    # (12), (14) probes on carried histories
+    multi = [c for c in cs if len(c["chunks"]) >= 2 and not c.get("fail_at")]
+    for c in multi[::3]:
+        c["copy_probe"] = True
+    for c in cs[1::6]:
+        if sum(c["chunks"]) <= 40:
+            c["grad_probe"] = True
     return cs
+
+
+def corpus_interleave():
+    """(17) fixed groups of objects served alternately"""
+    rng = random.Random(20260926_16)
+    mk = lambda parts, **kw: base_case(rng, "interleave", parts, **{"gyro_mode": "moderate", "acc_mode": "unit", "gravity": STD_G,
+                                                                    "layout": "contig", **kw})
+    return [[mk([2, 1, 3], B=2, dtype="float64"), mk([1, 2, 2], B=1, dtype="float32"), mk([3, 3], B=3, dtype="float64", reset=True)],
+            [mk([1, 1, 1, 1], B=1, dtype="float32", init_mode="default"), mk([2, 2], B=1, dtype="float32", init_mode="default")],
+            [mk([2, 3], B=2, dtype="float64", init_mode="default"), mk([4, 1], B=4, dtype="float64", init_mode="default", gravity=0.0)]]
 
 
 def corpus_reuse():
@@ -1430,10 +1586,21 @@ def gen_cases(ctx: Ctx):
         c["reset"] = rng.random() < 0.35
         c["prop_cov"] = True if not c["reset"] else rng.random() < 0.6
         c["known_rot"] = [rng.random() < 0.4 for _ in range(n)]
-        c["call_cov"] = [c["prop_cov"] and rng.random() < 0.3 for _ in range(n)]
-        kinds = [None, None, None, "basic", "cov", "cov+rij", "cov+rnone", "rij"]
+        c["call_cov"] = [(rng.choice([True, "g", "a", "b1"]) if c["prop_cov"] and rng.random() < 0.35 else False) for _ in range(n)]
+        kinds = [None, None, None, "basic", "cov", "cov+rij", "cov+rnone", "rij", "rnone"]
         c["explicit_init"] = [rng.choice(kinds) for _ in range(n)]
         cases.append(c)
+    # --- (11) error paths: a request that raises between successful calls of a carried history
+    for c in cases:
+        if c["stream"] in ("chunks", "history") and rng.random() < 0.3:
+            kinds = ERR_KINDS_ANY + (ERR_KINDS_COV * 2 if c["prop_cov"] else [])
+            n = len(c["chunks"])
+            c["fail_at"] = {str(rng.randint(0, n)): rng.choice(kinds) for _ in range(rng.choice([1, 1, 2]))}
+        if len(c["chunks"]) >= 2 and rng.random() < 0.15:
+            c["copy_probe"] = True
+            c["copy_at"] = rng.randint(1, len(c["chunks"]) - 1)
+        if sum(c["chunks"]) <= 24 and rng.random() < 0.1:
+            c["grad_probe"] = True
     return cases
 
 
@@ -1488,6 +1655,10 @@ def run(ctx: Ctx):
                               for _ in range(ctx.pick(6, 60))]
     for subs in reuse:
         run_reuse_history(ctx, subs)
+    groups = corpus_interleave() + [[base_case(rng, "interleave", random_chunks(rng, rng.randint(2, 9)), B=rng.choice([1, 2, 3]))
+                                     for _ in range(rng.choice([2, 3]))] for _ in range(ctx.pick(4, 40))]
+    for g in groups:
+        run_interleave(ctx, g)
     cases = gen_cases(ctx)
     # mixed-regime batches and the item-wise oracle also on seeded cases
     for c in cases:
@@ -1552,6 +1723,8 @@ def replay(ctx: Ctx, case) -> bool:
         run_shapes(ctx)
     elif c.get("kind") == "reuse":
         run_reuse_history(ctx, c["subs"])
+    elif c.get("kind") == "interleave":
+        run_interleave(ctx, c["subs"])
     elif c.get("kind") == "integrate":
         c["kind"] = "hist"
         run_integrate(ctx, [c])
